@@ -2238,11 +2238,32 @@ def t1_traverse(ctx):
     Q = next(iter(qs))
     loop = loops[0]
     seeds = [c for c in au.calls(fn) if q_method(c, Q, ("append", "appendleft")) and F.before(c, loop) and not F.inside(c, loop)]
+    # an optional parameter that defaults to None (a start node, a filter ..) selects among several seedings: the rule is about the default call,
+    # i.e. the branch taken when that parameter is None
+    a_ = fn0.args
+    none_defaults = {x_.arg for x_, d_ in zip((a_.posonlyargs + a_.args)[len(a_.posonlyargs + a_.args) - len(a_.defaults):], a_.defaults) if hr.is_none(d_)} | \
+        {x_.arg for x_, d_ in zip(a_.kwonlyargs, a_.kw_defaults) if d_ is not None and hr.is_none(d_)}
+    dropped_cond = set()
+
+    def on_default_path(c_):
+        for e_, p_ in F.conds(c_):
+            x_ = _is_none_cmp(e_)
+            if x_ is not None and isinstance(x_, ast.Name) and x_.id in none_defaults and x_.id != order_param0:
+                dropped_cond.add((hr.key(e_), p_))
+                if not p_:
+                    return False            # reached only when the optional parameter is given
+        return True
+    order_param0 = au.params(fn0, skip_self=True)[0] if au.params(fn0, skip_self=True) else "order"
+    if len(seeds) > 1:
+        seeds = [c_ for c_ in seeds if on_default_path(c_)]
     ni = 0          # slot of the node in the queued pairs (the other slot holds its parent)
     seed_t = seeds[0].args[0] if len(seeds) == 1 and len(seeds[0].args) == 1 and isinstance(seeds[0].args[0], ast.Tuple) and len(seeds[0].args[0].elts) == 2 else None
     if seed_t is not None and au.is_self_attr(seed_t.elts[1], "root") and _is_none_like(F, seed_t.elts[0], seeds[0]):
         ni = 1
-    if seed_t is not None and au.is_self_attr(seed_t.elts[ni], "root") and _is_none_like(F, seed_t.elts[1 - ni], seeds[0]) and F.unconditional(seeds[0], loop):
+    def uncond_(c_):
+        kr_ = {(hr.key(e_), p_) for e_, p_ in F.conds(loop)}
+        return all((hr.key(e_), p_) in kr_ or (hr.key(e_), p_) in dropped_cond for e_, p_ in F.conds(c_))
+    if seed_t is not None and au.is_self_attr(seed_t.elts[ni], "root") and _is_none_like(F, seed_t.elts[1 - ni], seeds[0]) and uncond_(seeds[0]):
         ctx.ok(R, site, "queue seeded with (self.root, None)")
     elif seed_t is not None and all(au.is_self_attr(x_, "root") or isinstance(x_, ast.Constant) for x_ in seed_t.elts) and F.unconditional(seeds[0], loop):
         ctx.fail(R, site, "traverse is not seeded with (self.root, None)", "")
